@@ -5,9 +5,11 @@ pairing in canonicalisation. Anything about the represented vector / Schmidt val
 and not decided."""
 import ast
 
-from ..core import (AnalysisError, depends_on, body_nodes, call_name, dotted, is_self_attr, key_text, kwarg,
+from ..core import (AnalysisError, bound_args, depends_on, body_nodes, call_name, dotted, is_self_attr, key_text, kwarg,
                     local_defs, names_in, params, parent, stmts_of, unparse)
-from ..pattern import find, pmatch
+from ..linform import NotPoly, Poly, eval_poly
+from ..normal import inline_temps
+from ..pattern import find, guards_at, guards_of, pmatch
 from .c09 import check_form_flow
 
 FILES = ['tenpy/networks/mps.py', 'tenpy/algorithms/tebd.py', 'tenpy/algorithms/tdvp.py',
@@ -121,27 +123,56 @@ def check_isometry_forms(prog, rep):
     return n
 
 
+def _descending(it, top):
+    """`it` runs from `top` down to 0"""
+    e = pmatch('range($$a, -1, -1)', it)
+    if e and unparse(e['$$a']) == top:
+        return True
+    e = pmatch('reversed(range($$a))', it) or pmatch('range($$a)[::-1]', it)
+    if e:
+        try:
+            return eval_poly(e['$$a'], {}) == eval_poly(ast.parse(top, mode='eval').body, {}) + \
+                Poly.const(1)
+        except NotPoly:
+            return False
+    return False
+
+
 def check_canonical_form(prog, rep):
     m = prog.module(MPS)
     f = m.func('MPS.canonical_form_finite')
-    src = unparse(f)
     rep.instance('FORM-canonical', {'function': 'MPS.canonical_form_finite'})
     problems = []
     # QR sweep left-to-right then SVD sweep right-to-left
     loops = [s for s in f.body if isinstance(s, ast.For)]
-    if len(loops) < 2 or unparse(loops[0].iter) != 'range(1, L - 1)' or \
-            unparse(loops[1].iter) != 'range(L - 2, -1, -1)':
+    fwd = [lp for lp in loops if pmatch('range(1, L - 1)', lp.iter) or
+           pmatch('range(1, self.L - 1)', lp.iter)]
+    back = [lp for lp in loops if _descending(lp.iter, 'L - 2') or
+            _descending(lp.iter, 'self.L - 2')]
+    if len(fwd) != 1 or len(back) != 1 or fwd[0].lineno > back[0].lineno:
         problems.append('sweep ranges: QR over range(1, L-1), SVD back over range(L-2, -1, -1)')
-    # singular values normalised before being stored
-    for lp in loops[1:2]:
-        body = ' '.join(unparse(b) for b in lp.body)
-        if 'S = S / np.linalg.norm(S)' not in body and 'S /= np.linalg.norm(S)' not in body:
+    for lp in back[:1]:
+        if not isinstance(lp.target, ast.Name):
+            problems.append('back sweep index not a name')
+            continue
+        i = lp.target.id
+        norm = find('$S = $S / np.linalg.norm($S)', lp) + find('$S /= np.linalg.norm($S)', lp)
+        setsl = find('self.set_SL(%s, $S)' % i, lp)
+        if not norm or not setsl or norm[0][1]['$S'] != setsl[0][1]['$S'] or \
+                norm[0][0].lineno > setsl[0][0].lineno:
             problems.append('singular values must be normalised before set_SL')
-        if "self.get_B(i, 'A')" not in body or 'self.set_SL(i, S)' not in body:
+        reads = find("self.get_B(%s, 'A')" % i, lp) + find("self.get_B(%s, form='A')" % i, lp)
+        if not reads or not setsl:
             problems.append('back sweep must read the A-form tensors and store S on the left bond')
-        if "U.scale_axis(S, 'vR')" not in body:
+        sc = find("$U.scale_axis($S, 'vR')", lp) + find("$U.iscale_axis($S, 'vR')", lp)
+        td = [n for n, _ in find('npc.tensordot($$a, $$b, axes=$$ax)', lp)]
+        if not sc or not any(sc[0][0] in ast.walk(t) or unparse(sc[0][0]) in unparse(t)
+                             for t in td) and not any(
+                isinstance(st, ast.Assign) and sc[0][0] in ast.walk(st) for st in ast.walk(lp)):
             problems.append('U*S of the previous step must be absorbed into the next tensor')
-    if 'self.norm = self.norm * np.linalg.norm(S)' not in src or 'if not renormalize' not in src:
+    nrm = find('self.norm = self.norm * np.linalg.norm($S)', f) + \
+        find('self.norm *= np.linalg.norm($S)', f)
+    if not nrm or ('renormalize', False) not in {(t, pol) for t, pol, _ in guards_of(f, nrm[0][0])}:
         problems.append('without renormalize the norm of the state must be kept in self.norm')
     for p in problems:
         rep.violation('FORM-canonical', m, 'MPS.canonical_form_finite', 'canon:' + p[:40], p,
@@ -157,23 +188,67 @@ def check_canonical_form(prog, rep):
                       'convert_form must store each tensor with the form it was converted to',
                       g.lineno)
     # get_theta: right neighbours contribute B with left exponent 1 - nuR(previous)
-    h = m.func('MPS.get_theta')
+    h = inline_temps(m.func('MPS.get_theta'), keep=('theta', 'old_fR', 'new_fR'))
     rep.instance('FORM-canonical', {'function': 'MPS.get_theta'})
-    srch = unparse(h)
-    if '(1.0 - old_fR, new_fR)' not in srch or '(formL, None)' not in srch or \
-            "axes=['vR', 'vL']" not in srch:
+    gb = [c for c in body_nodes(h) if isinstance(c, ast.Call) and dotted(c.func) == 'self.get_B']
+    getb = m.func('MPS.get_B')
+    first = [c for c in gb if unparse(bound_args(c, getb).get('form', c)) == '(formL, None)']
+    nxt = []
+    for c in gb:
+        fm = bound_args(c, getb).get('form')
+        if isinstance(fm, ast.Tuple) and len(fm.elts) == 2:
+            try:
+                lhs = eval_poly(fm.elts[0], {})
+            except NotPoly:
+                continue
+            if len(lhs.symbols()) == 1 and lhs == Poly.const(1) - Poly.sym(list(lhs.symbols())[0]):
+                nxt.append((c, list(lhs.symbols())[0]))
+    ok = bool(first) and bool(nxt) and any(
+        pmatch("npc.tensordot($$a, $$b, axes=['vR', 'vL'])", c) for c in body_nodes(h))
+    if ok:
+        # the subtracted exponent is the RIGHT exponent of the previous site's stored form
+        prev = nxt[0][1]
+        dfs = [st for st in stmts_of(h) if isinstance(st, ast.Assign) and
+               prev in {x.id for t in st.targets for x in ast.walk(t) if isinstance(x, ast.Name)}]
+        ok = bool(dfs) and all(pmatch('$$x, %s = self.form[$$k]' % prev, st) or
+                               pmatch('%s = self.form[$$k][1]' % prev, st) for st in dfs)
+    if not ok:
         rep.violation('FORM-canonical', m, 'MPS.get_theta', 'theta',
                       'theta = B_i(formL, .) * B_{i+1}(1 - nuR_i, .) ...: each bond\'s singular '
                       'values must enter exactly once', h.lineno)
     # entanglement entropy from squared Schmidt values of the correct bond
     e = m.func('MPS.entanglement_entropy')
     rep.instance('FORM-canonical', {'function': 'MPS.entanglement_entropy'})
-    srce = unparse(e)
-    if 'entropy(s ** 2, n)' not in srce or 'self.get_SL(ib)' not in srce or \
-            'self.get_SR(ib - 1)' not in srce:
+    why = None
+    sq = find('entropy($s ** 2, $$n)', e) + find('entropy($s * $s, $$n)', e)
+    if not sq:
+        why = 'the entropy must be taken of the squared singular values'
+    else:
+        sname = sq[0][1]['$s']
+        srcs = [st for st in ast.walk(e) if isinstance(st, ast.Assign) and
+                unparse(st.targets[0]) == sname]
+        got = {}
+        for st in srcs:
+            for c in ast.walk(st.value):
+                a = pmatch('self.get_SL($$b)', c)
+                b = pmatch('self.get_SR($$b)', c)
+                if a or b:
+                    g = {(t, pol) for t, pol, _ in guards_at(e, c)}
+                    if a:
+                        got['SL'] = (unparse(a['$$b']), g)
+                    if b:
+                        got['SR'] = (unparse(b['$$b']), g)
+        lp = [x for x in ast.walk(e) if isinstance(x, ast.For) and isinstance(x.target, ast.Name)]
+        ib = lp[0].target.id if lp else 'ib'
+        if 'SL' not in got or got['SL'][0] != ib:
+            why = 'bond ib: singular values LEFT of site ib (get_SL(ib))'
+        elif 'SR' in got and (got['SR'][0] != '%s - 1' % ib or
+                              ('%s == self.L' % ib, True) not in got['SR'][1]):
+            why = 'only for ib == L the values right of site L-1 are used (get_SR(ib - 1))'
+    if why:
         rep.violation('FORM-canonical', m, 'MPS.entanglement_entropy', 'entropy',
                       'entropy of bond ib uses the squared singular values left of site ib '
-                      '(right of site L-1 for ib == L)', e.lineno)
+                      '(right of site L-1 for ib == L): ' + why, e.lineno)
 
 
 def _contract_sides(call):
